@@ -568,6 +568,65 @@ def install(R):
 
     R.fns["sklearn.clone"] = R.fns["sklearn.base.clone"]
 
+    # ------------------------------------------------------------------ sklearn.tree._tree.Tree being built node by node
+    leafidF = z3.Function("leafid", z3.IntSort(), z3.RealSort(), z3.IntSort())
+    R.leafidF = leafidF
+
+    @reg("sklearn.tree._tree.Tree")
+    def _tree_new(E, n_features, n_classes, n_outputs):
+        o = Obj("Tree", tag="Tree")
+        o.fields.update(cnt=z3.IntVal(0),
+                        thr=z3.Const(fresh_name("thr"), z3.ArraySort(z3.IntSort(), z3.RealSort())),
+                        leaf=z3.Const(fresh_name("isleaf"), z3.ArraySort(z3.IntSort(), z3.BoolSort())),
+                        attL=z3.K(z3.IntSort(), z3.BoolVal(False)), attR=z3.K(z3.IntSort(), z3.BoolVal(False)))
+        o.fields["$leafid"] = leafidF
+        return o
+
+    def tree_add_node(E, tree, parent, is_left, is_leaf, feature, threshold, impurity, n_node_samples, weighted, missing_go_to_left):
+        """assumed contract of Tree._add_node (through the Cython wrapper tree_add_node): returns the next node id; a split node routes
+        x <= threshold to the child attached on the left and x > threshold to the one attached on the right (final tree);
+        precondition: the parent exists, is a split node and that slot is still free"""
+        f = tree.fields
+        cnt = f["cnt"]
+        if not isinstance(is_left, bool) or not isinstance(is_leaf, bool):
+            raise Unsupported("tree_add_node with symbolic flags")
+        lid = f["$leafid"]
+        att = "attL" if is_left else "attR"
+        if not (isinstance(parent, int) and parent == -1):
+            pz = z(parent)
+            site = E.where(None)
+            E.oblige("%s.%s.pre.tree_add_node.parent_is_an_existing_split_node_with_free_slot" % (E.prop, E.cur_func.qualname),
+                     z3.And(pz >= 0, pz < cnt, z3.Not(f["leaf"][pz]), z3.Not(f[att][pz])), "pre@call")
+            f[att] = z3.Store(f[att], pz, z3.BoolVal(True))
+            x = z3.Real(fresh_name("x"))
+            side = (x <= f["thr"][pz]) if is_left else (x > f["thr"][pz])
+            E.axiom(z3.ForAll([x], z3.Implies(side, lid(pz, x) == lid(cnt, x)), patterns=[lid(pz, x)]))
+        f["leaf"] = z3.Store(f["leaf"], cnt, z3.BoolVal(is_leaf))
+        tv = z(threshold)
+        f["thr"] = z3.Store(f["thr"], cnt, z3.ToReal(tv) if z3.is_int(tv) else tv)
+        f["attL"] = z3.Store(f["attL"], cnt, z3.BoolVal(False))
+        f["attR"] = z3.Store(f["attR"], cnt, z3.BoolVal(False))
+        if is_leaf:
+            x = z3.Real(fresh_name("x"))
+            E.axiom(z3.ForAll([x], lid(cnt, x) == cnt, patterns=[lid(cnt, x)]))
+        f["cnt"] = z3.simplify(cnt + 1)
+        tree.events.append(("call", "add_node"))
+        return cnt
+    R.fns["pyx:mlinsights/mltree/_tree_digitize.pyx::tree_add_node"] = tree_add_node
+
+    def tree_attr(E, base, attr, node):
+        if isinstance(base, Obj) and base.tag == "Tree":
+            if attr == "value":
+                if "$value" not in base.fields:
+                    base.fields["$value"] = NdArr.fresh("tree_value", (base.fields["cnt"], 1, 1), "real", nan=True)
+                return base.fields["$value"]
+            if attr == "node_count":
+                return base.fields["cnt"]
+            if attr in ("children_left", "children_right", "threshold", "feature") and "$" + attr in base.fields:
+                return base.fields["$" + attr]
+        return NotImplemented
+    R.attr_hooks.append(tree_attr)
+
     # ------------------------------------------------------------------ joblib (A8)
     def _parallel(E, *a, **kw):
         def runner(E, calls):
